@@ -1099,8 +1099,11 @@ impl CodegenContext {
                         Some(block) => {
                             let old_segment =
                                 std::mem::replace(&mut self.current_segment, Some(segment_id));
-                            self.emit_tokens(&block.inner)?;
+                            // Also go back to the previous segment when the block reported an error: the error may be gone
+                            // in the next pass, but a segment that stays selected would not be
+                            let result = self.emit_tokens(&block.inner);
                             self.current_segment = old_segment;
+                            result?;
                         }
                         None => {
                             self.current_segment = Some(segment_id);
